@@ -26,6 +26,10 @@ pub enum Bad {
     Surplus,
     WrongType,
     OutOfRange,
+    /// a unit that is nothing but `:` (the root addressed with nothing below it)
+    LoneColon,
+    /// an unknown common command
+    UndefinedCommon,
 }
 
 #[derive(Clone, Copy, Debug, PartialEq, Eq, Hash, Serialize, Deserialize)]
@@ -170,6 +174,8 @@ pub fn render_unit(u: &U, style: u8, first: bool) -> Vec<u8> {
             Bad::Surplus => "*CLS 1".into(),
             Bad::WrongType => "*ESE \"x\"".into(),
             Bad::OutOfRange => "*SRE 256".into(),
+            Bad::LoneColon => ":".into(),
+            Bad::UndefinedCommon => "*FOO".into(),
         },
     };
     let mut v = s.into_bytes();
@@ -306,8 +312,8 @@ pub fn model_unit(m: &mut Status, u: &U, mav: bool, tst: &Option<ErrSpec>) -> Ou
             }
         }
         U::Bad(b) => match b {
-            Bad::Garbage | Bad::UnterminatedString | Bad::WrongType => Outcome::FailClass(-199, -100),
-            Bad::UndefinedHeader => Outcome::FailClass(-113, -113),
+            Bad::Garbage | Bad::UnterminatedString | Bad::WrongType | Bad::LoneColon => Outcome::FailClass(-199, -100),
+            Bad::UndefinedHeader | Bad::UndefinedCommon => Outcome::FailClass(-113, -113),
             Bad::Missing => Outcome::FailClass(-109, -109),
             Bad::Surplus => {
                 // "*CLS 1": the handler runs (and clears) before the leftover datum is noticed
@@ -570,7 +576,7 @@ pub fn unit(weights: [u32; 5]) -> BoxedStrategy<U> {
         ],
         w_queue => prop_oneof![4 => Just(U::ErrNext), 2 => Just(U::ErrCount), 2 => Just(U::ErrAll), 1 => Just(U::Vers)],
         w_fail => prop_oneof![4 => fail_spec().prop_map(U::Fail), 1 => u8_value().prop_map(U::U8), 1 => u8_value().prop_map(U::U8Q)],
-        w_bad => prop_oneof![Just(Bad::Garbage), Just(Bad::UnterminatedString), Just(Bad::UndefinedHeader), Just(Bad::Missing), Just(Bad::Surplus), Just(Bad::WrongType), Just(Bad::OutOfRange)].prop_map(U::Bad),
+        w_bad => prop_oneof![Just(Bad::Garbage), Just(Bad::UnterminatedString), Just(Bad::UndefinedHeader), Just(Bad::Missing), Just(Bad::Surplus), Just(Bad::WrongType), Just(Bad::OutOfRange), Just(Bad::LoneColon), Just(Bad::UndefinedCommon)].prop_map(U::Bad),
     ]
     .boxed()
 }
